@@ -8,6 +8,15 @@ import (
 
 func registerExtra(e *Engine) {
 	I := e.intrinsics
+	// package-level variables of packages whose init is not executed
+	e.globalInit["net.v4InV6Prefix"] = func(x *Exec, c *Cell) {
+		bs := make([]*Term, 12)
+		for i := range bs {
+			bs[i] = x.ctx.BV(0, 8)
+		}
+		bs[10], bs[11] = x.ctx.BV(0xff, 8), x.ctx.BV(0xff, 8)
+		c.V = x.bytesToSlice(bs, "net.v4InV6Prefix")
+	}
 	// strings functions on concrete arguments
 	str2bool := func(f func(a, b string) bool) Intrinsic {
 		return func(x *Exec, caller *frame, fn *ssa.Function, args []Value) Value {
